@@ -346,7 +346,9 @@ PRE = '''function E(e){ return e instanceof TypeError ? 9999 : e; }
 var __fv = 0;
 function __fatal(n){ __fv = n; if (n % 3 === 1) __intr(n); else if (n % 3 === 2) (function r(){ r(); })(); else __gopanic(n); log(999998); }
 function __busy(id){ if (id & 1) { for (var z of [0]) { var [d0] = [z]; } for (var y in {a:1}) { try { continue; } finally { } } } }
-function mk(id,n,hasRet,retThrows,nt,hasThrow,fk){ var it={}; it[Symbol.iterator]=function(){ var c=0; var o={ next:function(v){ c++; log(30000+id*100+c); __busy(id); if(nt===c) { if (fk) __fatal(fk); throw 7; } return c<=n ? {value:c,done:false} : {value:undefined,done:true}; } }; if(hasRet) o['return']=function(v){ log(40000+id*100); __busy(id + 1); if(retThrows) { if (fk) __fatal(fk); throw 8; } return {value:v,done:true}; }; if(hasThrow===1) o['throw']=function(e){ log(45000+id*100); throw e; }; if(hasThrow===2) o['throw']=function(e){ log(45000+id*100); return {value:55,done:true}; }; return o; }; return it; }
+var __REENTER = false;
+function __re(){ if (__REENTER && typeof it === "object" && it) { try { it.next(1); log(999001); } catch (e) { if (!(e instanceof TypeError)) log(999002); } try { it["return"](1); log(999003); } catch (e) { if (!(e instanceof TypeError)) log(999004); } } }
+function mk(id,n,hasRet,retThrows,nt,hasThrow,fk){ var it={}; it[Symbol.iterator]=function(){ var c=0; var o={ next:function(v){ __re(); c++; log(30000+id*100+c); __busy(id); if(nt===c) { if (fk) __fatal(fk); throw 7; } return c<=n ? {value:c,done:false} : {value:undefined,done:true}; } }; if(hasRet) o['return']=function(v){ __re(); log(40000+id*100); __busy(id + 1); if(retThrows) { if (fk) __fatal(fk); throw 8; } return {value:v,done:true}; }; if(hasThrow===1) o['throw']=function(e){ __re(); log(45000+id*100); throw e; }; if(hasThrow===2) o['throw']=function(e){ log(45000+id*100); return {value:55,done:true}; }; return o; }; return it; }
 '''
 
 
@@ -555,6 +557,8 @@ def print_js(prog, probes=False, variant="base"):
         opts['yform'] = True
     if variant == "async":
         opts['async'] = True
+    # variant "reenter": every method of every instrumented iterator first tries to re-enter the running generator (next and return):
+    # 27.5.3.2 GeneratorValidate makes that a TypeError with no other effect, also while the generator delegates with yield*
     if variant == "scopes":
         # every block declares a captured block-scoped variable; every logged number checks the variables of all enclosing blocks
         opts['scopes'] = []
@@ -590,7 +594,7 @@ def print_js(prog, probes=False, variant="base"):
         fdef += '\nf = (0, eval)("(" + f.toString() + ")");'
     if variant == "evalplace":
         fdef = 'var f = (0, eval)(%s);' % json.dumps('(' + fdef + ')')
-    head = PRE + 'var T=true, Fa=false, OBJ={v:0}, GR;\n'
+    head = PRE + ('__REENTER = true;\n' if variant == "reenter" else '') + 'var T=true, Fa=false, OBJ={v:0}, GR;\n'
     if variant == "async":
         # the generator body as an async function: `yield n` is `await AW(n)`, and the i-th driver call next(v) / throw(e) becomes
         # the settlement of the i-th awaited operand (a promise, a plain value or a thenable, by position)
